@@ -26,6 +26,8 @@ pub enum Kind {
     Crash(usize),
     /// malformed message followed by a crash right after it
     MutThenCrash { msg: usize, m: MsgMut },
+    /// the commitment is recomputed for a malformed opening: (commit msg, bytes), (open msg, bytes)
+    Chain { commit: usize, commit_bytes: Arc<Vec<u8>>, open: usize, open_bytes: Arc<Vec<u8>>, what: String },
 }
 
 pub struct Case {
@@ -100,6 +102,36 @@ pub fn build_cases(tier: Tier, cfgs: &[Config]) -> Result<Vec<Case>, String> {
         for k in 0..=sent.len() {
             cases.push(Case { cfg: ci, kind: Kind::Crash(k) });
         }
+        // commit to a malformed aShare decommitment: cm = blake3(dm') sent in 'fashare comm', dm' in 'fashare ver'
+        for (oi, om) in sent.iter().filter(|(_, m)| m.label == "fashare ver") {
+            let Some((cmi, cm)) = sent.iter().find(|(_, m)| m.label == "fashare comm" && m.to == om.to && m.ord == om.ord) else { continue };
+            let (Ok(crate::schema::Val::Vec(mut comm)), Ok(crate::schema::Val::Vec(mut open))) = (decode_msg("fashare comm", &cm.bytes), decode_msg("fashare ver", &om.bytes)) else { continue };
+            let full = match &open[0] { crate::schema::Val::Vec(b) => b.len(), _ => continue };
+            for r in [0usize, 20, 39] {
+                for newlen in [0usize, 1, full - 1, full + 1, 8] {
+                    let mut dm: Vec<u8> = match &open[r] { crate::schema::Val::Vec(b) => b.iter().map(|x| if let crate::schema::Val::U8(v) = x { *v } else { 0 }).collect(), _ => continue };
+                    dm.resize(newlen, 0);
+                    let c = blake3::hash(&dm);
+                    let mut comm2 = comm.clone();
+                    if let crate::schema::Val::Tup(t) = &mut comm2[r] {
+                        t[2] = crate::schema::Val::Raw(c.as_bytes().to_vec());
+                    }
+                    let mut open2 = open.clone();
+                    open2[r] = crate::schema::Val::Vec(dm.iter().map(|b| crate::schema::Val::U8(*b)).collect());
+                    cases.push(Case {
+                        cfg: ci,
+                        kind: Kind::Chain {
+                            commit: *cmi,
+                            commit_bytes: Arc::new(crate::schema::encode_vec(&crate::schema::Val::Vec(comm2))),
+                            open: *oi,
+                            open_bytes: Arc::new(crate::schema::encode_vec(&crate::schema::Val::Vec(open2))),
+                            what: format!("decommitment #{r} of length {newlen} (instead of {full}) with a matching commitment"),
+                        },
+                    });
+                }
+            }
+            let _ = (&mut comm, &mut open);
+        }
     }
     Ok(cases)
 }
@@ -113,6 +145,10 @@ fn describe(cfgs: &[Config], c: &Case) -> (String, String, String) {
             (mr.label.clone(), format!("{}{extra}", m.class), format!("{}: message {:?} #{} {}->{}: {}{extra}", cfg.name, mr.label, mr.ord, mr.from, mr.to, m.detail))
         }
         Kind::Crash(k) => ("-".into(), "crash".into(), format!("{}: corrupted party stops after its message #{k}", cfg.name)),
+        Kind::Chain { open, what, .. } => {
+            let mr = &cfg.honest.msgs[*open];
+            (mr.label.clone(), "chain:commit+malformed_open".into(), format!("{}: {:?} #{} {}->{}: {what}", cfg.name, mr.label, mr.ord, mr.from, mr.to))
+        }
     }
 }
 
@@ -132,6 +168,10 @@ pub fn run_one(cfgs: &[Config], c: &Case) -> Value {
         Kind::Crash(k) => {
             ec.crash_after[cfg.corrupted] = Some(*k);
         }
+        Kind::Chain { commit, commit_bytes, open, open_bytes, .. } => {
+            ec.faults.push(send_fault(&cfg.honest.msgs[*commit], commit_bytes.clone()));
+            ec.faults.push(send_fault(&cfg.honest.msgs[*open], open_bytes.clone()));
+        }
     }
     if let Kind::Crash(0) = c.kind {
         // crash before the first message: the party never even starts
@@ -147,7 +187,7 @@ pub fn run_one(cfgs: &[Config], c: &Case) -> Value {
         };
         parties.push(json!({"p": p, "kind": kind, "msg": msg, "peak": r.alloc[p].peak, "largest": r.alloc[p].largest, "delivered": r.bytes_delivered[p]}));
     }
-    json!({"parties": parties, "deadlock": r.deadlock, "fault_hit": r.faults_hit.iter().all(|h| *h), "cap": r.cap_hit})
+    json!({"parties": parties, "deadlock": r.deadlock, "fault_hit": r.faults_hit.is_empty() || r.faults_hit.iter().any(|h| *h), "cap": r.cap_hit})
 }
 
 pub fn main(tier: Tier, seed: u64, rest: &[String]) -> i32 {
